@@ -307,6 +307,13 @@ def replay_budget(cfg, hist):
             clock.now += ev[1] * TAU
             last = (None, {})
             continue
+        if k == "setmax":
+            # the owner re-sizes the budget at run time through its public attribute
+            b.max_retries = ev[1]
+            for s in specs.values():
+                s.max = ev[1]
+            last = (None, {})
+            continue
         now = clock.now
         if k == "consume":
             got = b.consume(ev[1])
@@ -345,6 +352,8 @@ def bfs_budget(cfg, depth, seed=0):
     W = cfg["window"]
     events = [("consume", 1), ("consume", 2), ("remaining",)] + \
              [("tick", d) for d in sorted({1, max(W - 1, 1), W, W + 1})]
+    if cfg.get("widen"):
+        events.append(("setmax", cfg["max"] + 2))
     if cfg.get("frac_tick"):
         # an advance that is not a multiple of the tick nor of a millisecond: 0.4 ms short of the
         # window (a token of that age is unambiguously still inside it)
@@ -370,7 +379,9 @@ def bfs_budget(cfg, depth, seed=0):
                        f"after {list(h2)}: budget answered {got!r}; reference allows "
                        f"{sorted(set(map(repr, answers.values())))}")
             else:
-                inv = window_invariant(cfg, grants)
+                inv = window_invariant(
+                    dict(cfg, max=cfg["max"] + 2) if any(e[0] == "setmax" for e in h2) else cfg,
+                    grants)
                 if inv:
                     bad = ("c10.window-invariant", f"after {list(h2)}: {inv}")
             if bad:
